@@ -1,27 +1,180 @@
 import Q1t.Proofs.GF
+import Q1t.Proofs.SimGFExec
+import Q1t.Proofs.SimGFWitness
+import Q1t.Proofs.SimGFStabWitness
+import Q1t.Proofs.SimGFExample
+import Q1t.Proofs.SimGFComplex
 /-!
 # C01 — shot histograms are exact Born-rule samples of the circuit
 
-Property theorems. (Under construction: the abstract multinomial law is proved; the bridge from the
-concrete simulator model `Q1t.Sim` to the abstract range sampler, `prob0_eq_born` and the negative
-witnesses for the known defects are being added.)
+Objects (all defined outside this file):
+* the simulator model `Sim.execOps Sim.vecBackend` (`Q1t/Model/Sim.lean`), a term of the free monad `Prog`
+  whose only effects are `binomial` and `categorical` draws; `Prog.expectOrd ord toR p f` is the expectation
+  of `f` over the draws of `p` in any commutative ring `R` (`ord` = the iteration order of the hash map of
+  `measure_all`, an oracle; `toR : α →+* R` maps weights);
+* `SimGF.gfShot n toR x ops (ψ, w)` — the **single-shot Born generating function**
+  `Σ_branches ‖φ_branch‖² · x(final word)`, written with projectors and documented embedded unitaries only
+  (`Spec.project`, `Spec.gateOn`, `Spec.measureTo`);
+* `SimGF.shotProd x (state, register) = ∏_shots x(word of the shot)`.  With `R = MvPolynomial Word ℚ`,
+  `x = X`, the identity `E[shotProd x] = (gfShot …)^N` says that the histogram of `N` shots is
+  `Multinomial(N, p)`, `p` the Born distribution of the register value.
+* `SimGF.InF n valid op` — the fragment F: no `peek`, `peek_all`, `reset_all` (and, in this version, no
+  `measure_all`); gate placements valid; qubits `< n`; classical bits `< 64`.
+* `SimGF.Hyps α P nz n valid` — the named hypotheses: `LawfulAmp`, `LawfulSim`, `LawfulWeights` (amplitude and
+  weight arithmetic; ℂ with `nz w := w` is a positive real is the intended instance), `GateSemOK` (every valid
+  gate placement acts as its documented embedded unitary — the conjunction of C04 and C05) and `GateRuns`
+  (the routes of valid placements return).
+
+Level: the law is proved on F (`…_partial`); the full statement is FALSE of the pinned code (negative
+witnesses below).  Exactness of `rand`'s Binomial / WeightedIndex samplers and `f64` rounding are outside the
+model (trusted base).
 -/
 namespace Q1t.Props.C01
-open Q1t.GF
+open Q1t Q1t.Sim Q1t.Sim.Prog Q1t.Sim.SimGF Q1t.Spec
+
+/-! ## the abstract multinomial law of a range-based sampler -/
 
 /-- **Multinomial law of a range-based sampler** (all operation lists, all range lists, any
 commutative ring): the expected value of `∏ x(word)^count` after running `ops` on the ranges `rs`
 equals `∏ (gfShot ops range)^count` — the N-shot generating function is the N-th power of the
 single-shot one. -/
 theorem histogram_gf_abstract {S Word W R : Type} [CommRing R] (toR : W → R) (x : Word → R)
-    (ops : List (Op S Word W)) (rs : List (Rng S Word)) :
-    Prog.expect toR (exec ops rs) (value (fun sw => x sw.2)) = value (gfShot toR x ops) rs :=
-  histogram_gf toR x ops rs
+    (ops : List (GF.Op S Word W)) (rs : List (GF.Rng S Word)) :
+    GF.Prog.expect toR (GF.exec ops rs) (GF.value (fun sw => x sw.2)) = GF.value (GF.gfShot toR x ops) rs :=
+  GF.histogram_gf toR x ops rs
 
 /-- … in particular from a single range of `N` shots: `(single-shot generating function)^N`. -/
 theorem histogram_gf_abstract_single {S Word W R : Type} [CommRing R] (toR : W → R) (x : Word → R)
-    (ops : List (Op S Word W)) (N : Nat) (sw : S × Word) :
-    Prog.expect toR (exec ops [(N, sw)]) (value (fun sw => x sw.2)) = gfShot toR x ops sw ^ N :=
-  histogram_gf_single toR x ops N sw
+    (ops : List (GF.Op S Word W)) (N : Nat) (sw : S × Word) :
+    GF.Prog.expect toR (GF.exec ops [(N, sw)]) (GF.value (fun sw => x sw.2)) = GF.gfShot toR x ops sw ^ N :=
+  GF.histogram_gf_single toR x ops N sw
+
+/-! ## the simulator model -/
+
+section
+variable {α P R : Type} [CommRing α] [Amp α P] [SimAmp α] [CommRing R] {nz : α → Prop}
+
+/-- **`prob0_eq_born`** (all `n`, `q`, all coefficient vectors): the weight of outcome 0 that the code
+computes by summing `|a|²` over the blocks whose index bit is clear is `⟨ψ|P₀^{(q)}|ψ⟩`. -/
+theorem prob0_eq_born (hs : LawfulSim α P nz) (n q : Nat) (ψ : List α) :
+    w0Of n q ψ = normSqSum (project n q false ψ) :=
+  Sim.prob0_eq_born hs n q ψ
+
+variable {n N : Nat} {valid : GateTerm P → List Nat → Prop}
+
+/-- **The law from any homogeneous state** (all circuits of F, all register sizes, all range lists
+`(count, normalised state, word)`, all shot numbers, every commutative ring `R`, every `x`, every order
+oracle): the expected value of `∏_shots x(word)` is `∏_ranges gfShot(ops)(state, word)^count`. -/
+theorem exec_gf_partial (H : Hyps α P nz n valid) (ord : List (Nat × Nat) → List (Nat × Nat)) (toR : α →+* R)
+    (x : Nat → R) (ops : List (COp P)) (hF : ∀ op ∈ ops, InF n valid op) (rs : List (Rng α)) (hrs : Good n N rs) :
+    expectOrd ord toR (execOps (vecBackend (α := α) (P := P)) (mkState n N rs) (mkReg rs) ops) (shotProd x) =
+      value (gfShot n toR x ops) rs :=
+  exec_gf ord toR H x ops hF rs hrs
+
+/- FULL STATEMENT (`histogram_gf_full`), for ALL circuits, which is what the property claims:
+
+     ∀ ops N x, E[ ∏_{i<N} x(register[i]) after execOps B (fresh state, N shots) ops ] = (bornGf ops (|0…0⟩, 0))^N
+
+   for both backends `B`, `bornGf` being the Born generating function including peeks (outcome `o` with
+   probability `‖P_o ψ‖²`, state kept) and `reset_all`.  It is FALSE of the pinned code:
+   `peek_peek_not_multinomial` (D2), `measure_resetall_measure_not_multinomial` (D3) for the vector backend,
+   `stab_reset_bell_not_born` (D4), `stab_peekall_bell_zero_prob_value` (D5) for the stabilizer backend.
+   Proved instead: the law on the fragment F for the vector backend.  Missing from F relative to the design:
+   `measure_all` (the categorical node; `gfShot` already has its clause), the stabilizer backend (its
+   measurement is tied to the vector backend by C03, not here), and `N = 0` (execution of 0 shots can panic,
+   D9, a finding of C18). -/
+
+/-- **Multinomial law, `histogram_gf` restricted to F** (all circuits of F, all `n`, all `N ≥ 1`, every
+commutative ring, every `x`): running the circuit for `N` shots from `|0…0⟩` with a cleared register, the
+generating function of the register contents is the `N`-th power of the single-shot Born generating
+function — the histogram is a `Multinomial(N, p)` draw. -/
+theorem histogram_gf_partial (H : Hyps α P nz n valid) (ord : List (Nat × Nat) → List (Nat × Nat)) (toR : α →+* R)
+    (x : Nat → R) (ops : List (COp P)) (hF : ∀ op ∈ ops, InF n valid op) (hN : 0 < N) :
+    expectOrd ord toR (execOps (vecBackend (α := α) (P := P)) (VecState.new n N) (List.replicate N 0) ops)
+      (shotProd x) = gfShot n toR x ops (ket0 n, 0) ^ N :=
+  histogram_gf ord toR H x ops hF hN
+
+/-- **Register values of probability zero never occur** (on F): if the single-shot Born coefficient of the
+value `v` is 0, the expectation of the indicator "some shot shows `v`" is 0. -/
+theorem zero_prob_never_partial (H : Hyps α P nz n valid) (ord : List (Nat × Nat) → List (Nat × Nat))
+    (toR : α →+* R) (ops : List (COp P)) (hF : ∀ op ∈ ops, InF n valid op) (hN : 0 < N) (v : Nat)
+    (hv : gfShot n toR (fun u => if u = v then (1 : R) else 0) ops (ket0 n, 0) = 0) :
+    expectOrd ord toR (execOps (vecBackend (α := α) (P := P)) (VecState.new n N) (List.replicate N 0) ops)
+      (fun sc => if v ∈ sc.2 then (1 : R) else 0) = 0 :=
+  zero_prob_never ord toR H ops hF hN v hv
+
+/-- **A circuit of F never fails** (on F, all `n`, `N ≥ 1`): the successful runs have total probability 1 —
+no error return and no panic site of the model is reached with positive probability, and the single-shot
+coefficients of `gfShot` add up to 1. -/
+theorem exec_total_partial (H : Hyps α P nz n valid) (ord : List (Nat × Nat) → List (Nat × Nat)) (toR : α →+* R)
+    (ops : List (COp P)) (hF : ∀ op ∈ ops, InF n valid op) (hN : 0 < N) :
+    expectOrd ord toR (execOps (vecBackend (α := α) (P := P)) (VecState.new n N) (List.replicate N 0) ops)
+      (fun _ => (1 : R)) = 1 :=
+  exec_total ord toR H ops hF hN
+
+end
+
+/-! ## non-vacuity -/
+
+/-- the arithmetic hypotheses `amp`, `sim`, `wts` of `Hyps` hold together for the complex numbers (angles `ℝ`,
+`rsqrt w = 1/√(re w)`, `min1 w = min(re w, 1)`, `nz w` = "`w` is a positive real"); the remaining two,
+`GateSemOK` and `GateRuns`, are the statements of C04 + C05 -/
+theorem hyps_arith_complex :
+    LawfulAmp ℂ ℝ ∧ LawfulSim ℂ ℝ SimGFComplex.nzC ∧ LawfulWeights ℂ SimGFComplex.nzC :=
+  SimGFComplex.arith_hyps_complex
+
+open Q1t.Sim.Witness
+
+/-- a 2-qubit circuit with a mid-circuit measurement, a classically controlled gate, a reset and an X-basis
+measurement is in F -/
+example : ∀ op ∈ fragCirc, InF 2 (placed 2) op := fragCirc_inF
+
+/-- on it the conclusion of `histogram_gf_partial` holds for 2 shots, computed by the kernel on the model's own
+program over the exact field `Q8` (independently of `Hyps`) -/
+theorem histogram_gf_example :
+    expectOrd id (RingHom.id Q8) (execOps (vecBackend (α := Q8) (P := Empty)) (VecState.new 2 2) [0, 0] fragCirc)
+      (SimGF.shotProd xT) = gfShot 2 (RingHom.id Q8) xT fragCirc (ket0 2, 0) ^ 2 :=
+  law_on_example
+
+/-- its single-shot distribution has four values of probability ¼ … -/
+example : ∀ v ∈ [0, 3, 4, 7],
+    gfShot 2 (RingHom.id Q8) (fun u => if u = v then 1 else 0) fragCirc (ket0 2, 0) = q8Rat (1/4) := fragCirc_coeffs
+/-- … and four of probability 0 (the hypothesis of `zero_prob_never_partial` is satisfiable) -/
+example : ∀ v ∈ [1, 2, 5, 6],
+    gfShot 2 (RingHom.id Q8) (fun u => if u = v then 1 else 0) fragCirc (ket0 2, 0) = 0 := fragCirc_zero
+
+/-! ## negative witnesses: the full statement fails on the pinned code -/
+
+/-- **D2** `h 0; peek 0→0; peek 0→1`, 2 shots, vector backend: the generating-function identity of the
+multinomial law fails at `xTest`; the two shots show `{01, 10}` with probability 0 (Born multinomial: 1/8). -/
+theorem peek_peek_not_multinomial :
+    expect id peekPeekProg (Witness.shotProd xTest) ≠ peekPeekBornGF xTest * peekPeekBornGF xTest ∧
+    expect id peekPeekProg (pairIs 1 2) = 0 ∧ (1 + 1) * peekPeekBorn 1 * peekPeekBorn 2 = q8Rat (1/8) ∧
+    expect id peekPeekProg (fun _ => 1) = 1 :=
+  ⟨peekPeek_gf_ne, peekPeek_model_12, peekPeek_born_12, peekPeek_model_total⟩
+
+/-- **D3** `h 0; measure 0→0; reset_all; h 0; measure 0→1`, 2 shots, vector backend. -/
+theorem measure_resetall_measure_not_multinomial :
+    expect id measResetMeasProg (Witness.shotProd xTest) ≠ measResetMeasBornGF xTest * measResetMeasBornGF xTest ∧
+    expect id measResetMeasProg (pairIs 1 2) = 0 ∧ (1 + 1) * measResetMeasBorn 1 * measResetMeasBorn 2 = q8Rat (1/8) ∧
+    expect id measResetMeasProg (fun _ => 1) = 1 :=
+  ⟨measResetMeas_gf_ne, measResetMeas_model_12, measResetMeas_born_12, measResetMeas_model_total⟩
+
+/-- **D4** `h 0; cx 0 1; reset 0; measure 1→0`, 1 shot, stabilizer backend: the register value 1 has Born
+probability ½ (reference branching semantics), the stabilizer model never produces it (and reads 0 with
+probability 1); the vector backend of the same model gives ½. -/
+theorem stab_reset_bell_not_born :
+    bellResetBorn 1 = q8Half ∧ q8Half ≠ 0 ∧ expect id bellResetStabProg (regIs [1]) = 0 ∧
+    expect id bellResetStabProg (regIs [0]) = 1 ∧ expect id bellResetVecProg (regIs [1]) = q8Half :=
+  ⟨bellReset_born.2.2, q8_half_ne_zero, bellReset_stab_1, bellReset_stab_0, bellReset_vec_1⟩
+
+/-- **D5** `h 0; cx 0 1; peek_all [0,1]`, 1 shot, stabilizer backend: the register values 01 and 10 have Born
+probability 0 on the (normalised) Bell state and probability ¼ each in the stabilizer model. -/
+theorem stab_peekall_bell_zero_prob_value :
+    Witness.normSqSum bell = 1 ∧ bellPeekAllBorn 1 = 0 ∧ bellPeekAllBorn 2 = 0 ∧
+    expect id bellPeekAllStabProg (regIs [1]) = q8Rat (1/4) ∧ expect id bellPeekAllStabProg (regIs [2]) = q8Rat (1/4) ∧
+    q8Rat (1/4) ≠ 0 :=
+  ⟨bell_normalised, bellPeekAll_born.2.1, bellPeekAll_born.2.2.1, bellPeekAll_stab.1, bellPeekAll_stab.2,
+    q8_quarter_ne_zero⟩
 
 end Q1t.Props.C01
